@@ -227,7 +227,7 @@ func workerMain() {
 	debug.SetMemoryLimit(memBudgetBytes / 2)
 	// production default is 1 GB: unbounded Go recursion (e.g. in the encoder) ends in the same fatal
 	// "stack overflow", only sooner; Lua call depth is bounded by the VM itself
-	debug.SetMaxStack(256 << 20)
+	debug.SetMaxStack(64 << 20)
 	objs := inputObjects()
 	dec := json.NewDecoder(bufio.NewReaderSize(in, 1<<20))
 	w := bufio.NewWriterSize(out, 1<<16)
@@ -257,25 +257,51 @@ func workerMain() {
 // parent side
 // ---------------------------------------------------------------------------------------------
 
+// tailBuf keeps the head and the tail of a worker's stderr (a Go fatal error starts with the reason
+// and continues with a long goroutine dump).
 type tailBuf struct {
-	mu  sync.Mutex
-	buf []byte
+	mu   sync.Mutex
+	head []byte
+	tail []byte
 }
+
+const headKeep, tailKeep = 128 << 10, 16 << 10
 
 func (t *tailBuf) Write(p []byte) (int, error) {
 	t.mu.Lock()
-	t.buf = append(t.buf, p...)
-	if len(t.buf) > 16384 {
-		t.buf = t.buf[len(t.buf)-16384:]
+	n := len(p)
+	if room := headKeep - len(t.head); room > 0 {
+		k := room
+		if k > len(p) {
+			k = len(p)
+		}
+		t.head = append(t.head, p[:k]...)
+		p = p[k:]
+	}
+	t.tail = append(t.tail, p...)
+	if len(t.tail) > tailKeep {
+		t.tail = t.tail[len(t.tail)-tailKeep:]
 	}
 	t.mu.Unlock()
-	return len(p), nil
+	return n, nil
 }
 
+// String drops klog lines (the repository logs its Lua configuration at start-up).
 func (t *tailBuf) String() string {
 	t.mu.Lock()
 	defer t.mu.Unlock()
-	return string(t.buf)
+	s := string(t.head)
+	if len(t.tail) > 0 {
+		s += "\n[…]\n" + string(t.tail)
+	}
+	var keep []string
+	for _, l := range strings.Split(s, "\n") {
+		if len(l) > 5 && (l[0] == 'I' || l[0] == 'W' || l[0] == 'E') && l[1] >= '0' && l[1] <= '9' && l[5] == ' ' {
+			continue
+		}
+		keep = append(keep, l)
+	}
+	return strings.Join(keep, "\n")
 }
 
 type workerProc struct {
@@ -412,6 +438,8 @@ func runItems(wp *workerProc, items []item, skip func(i int) bool, onKill func(i
 				outs[i].Crashed, outs[i].ExitCode, outs[i].Stderr = true, code, st
 				if code == memBombExit || strings.Contains(st, "out of memory") || strings.Contains(st, "cannot allocate memory") {
 					outs[i].Crashed, outs[i].MemBomb = false, true
+				} else if onKill != nil {
+					onKill(-(i + 1)) // negative: crash
 				}
 				wp = nil
 				i++
@@ -473,7 +501,13 @@ func runPool(par int, gen func(emit func(task)), cut *classCut, sink func(t task
 				if cut != nil {
 					tt := t
 					skip = func(i int) bool { return cut.cutOff(tt.metas[i]) }
-					onKill = func(i int) { cut.kill(tt.metas[i]) }
+					onKill = func(i int) {
+						if i < 0 {
+							cut.crash(tt.metas[-i-1])
+						} else {
+							cut.kill(tt.metas[i])
+						}
+					}
 				}
 				var outs []outcome
 				var err error
@@ -495,17 +529,25 @@ func runPool(par int, gen func(emit func(task)), cut *classCut, sink func(t task
 	return nil
 }
 
-// classCut stops executing further scripts of a (family, class) after `limit` watchdog kills: every
-// kill costs 10 s, and the class already has its witness (tasks are dispatched smallest-first).
+// classCut stops executing further scripts of a (family, class) after `limit` watchdog kills (every
+// kill costs 10 s) or 25 worker crashes (every crash costs a process start); the class already has
+// its witness (tasks are dispatched smallest-first). A cut makes the run non-exhaustive.
 type classCut struct {
-	mu    sync.Mutex
-	kills map[string]int
-	limit int
-	cut   map[string]int
+	mu      sync.Mutex
+	kills   map[string]int
+	crashes map[string]int
+	limit   int
+	cut     map[string]int
 }
 
 func newClassCut(limit int) *classCut {
-	return &classCut{kills: map[string]int{}, cut: map[string]int{}, limit: limit}
+	return &classCut{kills: map[string]int{}, crashes: map[string]int{}, cut: map[string]int{}, limit: limit}
+}
+
+func (c *classCut) crash(m meta) {
+	c.mu.Lock()
+	c.crashes[m.Family+"/"+m.Class]++
+	c.mu.Unlock()
 }
 
 func (c *classCut) kill(m meta) {
@@ -521,7 +563,7 @@ func (c *classCut) cutOff(m meta) bool {
 	c.mu.Lock()
 	defer c.mu.Unlock()
 	k := m.Family + "/" + m.Class
-	if c.kills[k] >= c.limit {
+	if c.kills[k] >= c.limit || c.crashes[k] >= 25 {
 		c.cut[k]++
 		return true
 	}
